@@ -415,7 +415,7 @@ fn main() {
             if !seen.is_empty() {
                 let kv_t = c::list(kvs.iter().map(|kv| {
                     let k = match &kv[0] { J::String(s) => format!("(KStr {})", c::s(s)), J::Number(n) => format!("(KInt {})", c::z(n.as_i64().unwrap_or(0) as i128)), _ => "(KStr \"\")".into() };
-                    format!("({}, {})", k, c::s(&kv[1].to_string()))
+                    format!("({}, {})", k, c::s(kv[1].as_str().unwrap_or("")))
                 }));
                 let seen_t = c::list(seen.iter().map(|a| {
                     // rendered as association lists key -> list of value texts
